@@ -320,6 +320,7 @@ def ordered_tuples_rule(ctx, rule, cg, reach):
     compares equal."""
     src, tf = ctx.src, ctx.types
     producers = {}
+    site_types = {}
     sites = 0
     for q in sorted(reach):
         try:
@@ -335,6 +336,10 @@ def ordered_tuples_rule(ctx, rule, cg, reach):
                 if not any(x in ('tuple', 'builtins.tuple') for x in names):
                     continue
                 sites += 1
+                shape = tf.show(t).replace('builtins.', '').replace(' ', '').replace('|None', '').replace('None|', '')
+                site_types.setdefault(shape, set()).add(f'{q}: `{unparse(n)[:60]}`')
+                rule.instance({'ordering_site': f'{q}: `{unparse(n)[:60]}`', 'operand': unparse(opnd)[:30], 'operand_type': tf.show(t)},
+                              key=f'site|{q}|{unparse(n)[:50]}|{unparse(opnd)[:20]}', sample_cap=4)
                 # the definitions of the operand in this function: calls of package functions
                 if not isinstance(opnd, ast.Name):
                     continue
@@ -351,6 +356,20 @@ def ordered_tuples_rule(ctx, rule, cg, reach):
                                 producers.setdefault(cq, set()).add(f'{q}: `{unparse(n)[:60]}`')
     if not sites:
         raise AnalysisError('no ordering comparison of tuples found in the code reachable from the matching API (match_range is expected)')
+    # ... and, where the operands are parameters or table entries, the reachable functions that are declared to return a tuple of
+    # exactly the type that is ordered somewhere
+    for q in sorted(reach):
+        try:
+            mod, fn = src.func(q)
+        except Exception:
+            continue
+        if fn.returns is None:
+            continue
+        shape = unparse(fn.returns).replace('typing.', '').replace('Tuple', 'tuple').replace(' ', '').replace('|None', '').replace('None|', '')
+        if shape.startswith('Optional[') and shape.endswith(']'):
+            shape = shape[9:-1]
+        if shape in site_types:
+            producers.setdefault(q, set()).update(site_types[shape])
     for cq, users in sorted(producers.items()):
         # the tuple displays the producer can return, through local variables, conditional expressions and calls of other
         # package functions whose result it hands on
